@@ -733,8 +733,9 @@ Fixpoint readPacketHeader (ro : ropts) (F : nat) (fuel : nat) : SM unit :=
       s <- sget ;;
       let id := if t =? 6 then getu (r_big s) (sl b 0 4) else getu (r_big s) (sl b 0 2) in
       smod (fun s => set_ci s (mkCi id (ci_ts (r_ci s)) (ci_cap (r_ci s)) (ci_len (r_ci s)))) ;;;
+      if zlen (r_ifaces s) <=? id then sfail 3 else
       match nth_error (r_ifaces s) (Z.to_nat id) with
-      | None => sfail 3
+      | None => spanic 7
       | Some i =>
         tm <- slift (convert_time i (ts_of (r_big s) (sl b 4 12))) ;;
         smod (fun s => set_ci s (mkCi id tm (getu (r_big s) (sl b 12 16)) (getu (r_big s) (sl b 16 20)))) ;;;
